@@ -39,23 +39,33 @@ def main():
         try:
             props = [target] + ([p for p in ALL if p != target] if allprops else [])
             caught, lines = [], {}
-            for p in props:
-                t0 = time.time()
+
+            def one(p):
                 # by default without the changed-source boost (cflib.source_changes): what is recorded is what the plain quick
                 # volumes catch; --boost measures the check as it really runs on a changed tree
                 env = dict(os.environ) if "--boost" in sys.argv else dict(os.environ, VERIF_NO_BOOST="1")
                 c = sh("./check %s --tier quick" % p, cwd=ROOT, env=env)
                 v = [l for l in c.stdout.split("\n") if l.startswith("VIOLATION")]
                 if c.returncode != 0 or v:
-                    caught.append(p)
-                    lines[p] = (v[:1] or [c.stdout[-200:]])[0]
-                    rp = None
+                    line = (v[:1] or [c.stdout[-200:]])[0]
                     if v and "replay=" in v[0]:
                         rp = v[0].split("replay=")[1].split(" ")[0]
                         try:
-                            lines[p] += " :: " + json.load(open(rp)).get("message", "")[:200]
+                            line += " :: " + json.load(open(rp)).get("message", "")[:200]
                         except Exception:
                             pass
+                    return p, line
+                return p, None
+            if "--parallel" in sys.argv and len(props) > 1:
+                import concurrent.futures
+                with concurrent.futures.ThreadPoolExecutor(max_workers=6) as ex:
+                    outs = list(ex.map(one, props))
+            else:
+                outs = [one(p) for p in props]
+            for p, line in outs:
+                if line is not None:
+                    caught.append(p)
+                    lines[p] = line
             results[sid] = {"property": target, "caught_by": caught, "first_violation": lines, "checked": props}
             print(sid, "->", caught, flush=True)
         finally:
